@@ -32,6 +32,15 @@ def run(tier):
     ck.cov["parts"]["tlc:negative-control"] = {"refuted": True, "error": neg.error}
     res = vlib.run_harness("fv-write", ["c07", "gaps", "--gaps", r.out])
     ck.add_harness("replay:gaps", res)
+    # every graph of two C05 families: repeated compilation under fresh hash seeds and id gaps
+    for fam in ["enum4"] if tier == "quick" else ["enum4", "enum3", "enum4t"]:
+        rg = vlib.run_tlc(wd, "GraphPackMC", cfg="GraphPackMC_%s.cfg" % fam, workers=6, out_name="g_" + fam + ".out", timeout=3000)
+        ck.add_tlc("tlc:graphs-" + fam, rg)
+        if not rg.ok:
+            ck.spec_error("GraphPackMC/" + fam, rg)
+        res = vlib.run_harness("fv-write", ["c07", "graphs", "--cases", rg.out])
+        ck.add_harness("replay:graphs-" + fam, res)
+        os.remove(rg.out)
     hashes = set()
     for i in range(1 if tier == "quick" else 6):
         trace = os.path.join(wd, "threads_%d.ndjson" % i)
